@@ -52,6 +52,85 @@ pub struct World {
     /// accounts the shrinker must not simplify (probe contracts)
     #[serde(default)]
     pub protected: Vec<Address>,
+    /// CREATE2 lifecycle template: (factory, child address); see `add_lifecycle`
+    #[serde(default)]
+    pub lifecycle: Option<(Address, Address)>,
+    /// percentage of generated transactions that drive the lifecycle template
+    #[serde(default)]
+    pub lifecycle_pct: u64,
+}
+
+/// Lifecycle template (DESIGN §3.3): a factory that CREATE2s one fixed child with the
+/// transaction's value; the child's init code stores 0x42 at slot CALLVALUE (so every
+/// incarnation writes a different slot), its runtime code self-destructs to the caller
+/// (calldata[0] != 0) or stores calldata[2] at slot calldata[1]. Histories over these
+/// transactions create, change, destroy and re-create the same address.
+pub fn add_lifecycle(w: &mut World, pct: u64) {
+    use crate::asm::op::*;
+    let spec = w.cfg.spec_id();
+    if !spec.is_enabled_in(SpecId::PETERSBURG) {
+        return;
+    }
+    let salt = w.disk.hash_salt;
+    let factory = addr_from(salt, 9000);
+    // child runtime
+    let mut r = Asm::new();
+    r.push_u(0).op(CALLDATALOAD).push_u(0).op(BYTE).op(ISZERO);
+    let l1 = r.len() + 3 + 1 + 2;
+    r.push2(l1 as u16).op(JUMPI).op(CALLER).op(SELFDESTRUCT);
+    debug_assert_eq!(r.len(), l1);
+    r.op(JUMPDEST);
+    r.push_u(2).op(CALLDATALOAD).push_u(0).op(BYTE);
+    r.push_u(1).op(CALLDATALOAD).push_u(0).op(BYTE);
+    r.op(SSTORE).op(STOP);
+    // child init: SSTORE(CALLVALUE, 0x42), then return the runtime
+    let mut p = Asm::new();
+    p.push_u(0x42).op(CALLVALUE).op(SSTORE);
+    let init = wrap_initcode(&p.code, &r.code);
+    // factory: CREATE2(value = CALLVALUE, init, salt 0)
+    let mut f = Asm::new();
+    for (i, chunk) in init.chunks(32).enumerate() {
+        let mut word = [0u8; 32];
+        word[..chunk.len()].copy_from_slice(chunk);
+        f.op(PUSH32).raw(&word).push_u(32 * i as u64).op(MSTORE);
+    }
+    f.push_u(0).push_u(init.len() as u64).push_u(0).op(CALLVALUE).op(CREATE2).op(POP).op(STOP);
+    let child = create2_address(factory, U256::ZERO, &init);
+    w.disk.accounts.insert(factory, DiskAccount { nonce: 1, code: f.bytes(), ..Default::default() });
+    w.universe.push(factory);
+    w.universe.push(child);
+    w.universe.sort();
+    w.universe.dedup();
+    for k in 0..4u64 {
+        if !w.slots.contains(&U256::from(k)) {
+            w.slots.push(U256::from(k));
+        }
+    }
+    w.lifecycle = Some((factory, child));
+    w.lifecycle_pct = pct;
+}
+
+fn gen_lifecycle_tx(rng: &mut Rng, w: &World, caller: Address) -> TxSpec {
+    let (factory, child) = w.lifecycle.unwrap();
+    let mut tx = TxSpec::simple(caller, Some(factory), Bytes::new(), 400_000);
+    tx.gas_price = w.block.basefee + U256::from(rng.below(3));
+    match rng.below(10) {
+        0 | 1 | 2 | 3 => {
+            // (re-)create with value 0..3 => the incarnation writes slot `value`
+            tx.value = U256::from(rng.below(4));
+        }
+        4 | 5 | 6 => {
+            // destroy
+            tx.to = Some(child);
+            tx.data = Bytes::from(vec![1]);
+        }
+        _ => {
+            // change a slot (possibly back to zero / to its old value)
+            tx.to = Some(child);
+            tx.data = Bytes::from(vec![0, rng.below(4) as u8, *rng.pick(&[0u8, 0x42, 7])]);
+        }
+    }
+    tx
 }
 
 /// Swarm knobs of a world (what kind of behaviour dominates).
@@ -63,6 +142,8 @@ pub struct WorldKnobs {
     pub max_contracts: u64,
     pub snippets: (u64, u64),
     pub near_max_balances: bool,
+    /// percentage of transactions that drive the CREATE2 lifecycle template (0 = none)
+    pub lifecycle_pct: u64,
     pub tune: fn(&mut GenCtx, &mut Rng),
 }
 
@@ -77,6 +158,7 @@ impl WorldKnobs {
             max_contracts: 6,
             snippets: (2, 10),
             near_max_balances: false,
+            lifecycle_pct: 8,
             tune: default_tune,
         }
     }
@@ -252,7 +334,11 @@ pub fn gen_world(rng: &mut Rng, k: &WorldKnobs) -> World {
     universe.push(Address::with_last_byte(0xcc));
     universe.sort();
     universe.dedup();
-    World { cfg, block, disk, eoas, contracts, universe, slots, protected: vec![] }
+    let mut w = World { cfg, block, disk, eoas, contracts, universe, slots, protected: vec![], lifecycle: None, lifecycle_pct: 0 };
+    if k.lifecycle_pct > 0 {
+        add_lifecycle(&mut w, k.lifecycle_pct);
+    }
+    w
 }
 
 /// A transaction against the world; fees are valid by construction (validity is C02's topic).
@@ -269,6 +355,9 @@ pub fn gen_tx(rng: &mut Rng, w: &World) -> TxSpec {
         .cloned()
         .collect();
     let caller = *rng.pick(&senders);
+    if w.lifecycle.is_some() && rng.below(100) < w.lifecycle_pct {
+        return gen_lifecycle_tx(rng, w, caller);
+    }
     let to = match rng.below(20) {
         0 => None,
         1 => Some(*rng.pick(&w.eoas)),
@@ -316,8 +405,21 @@ pub fn gen_tx(rng: &mut Rng, w: &World) -> TxSpec {
             access_list.push((a, ks));
         }
     }
+    // EIP-4844 blob transactions (Cancun+): the blob fee is burned
+    let (mut blobs, mut blob_fee_cap) = (vec![], None);
+    if spec.is_enabled_in(SpecId::CANCUN) && to.is_some() && rng.chance(1, 6) {
+        let n = rng.range(1, 3);
+        blobs = (0..n)
+            .map(|i| {
+                let mut b = [i as u8 + 1; 32];
+                b[0] = 0x01;
+                B256::from(b)
+            })
+            .collect();
+        blob_fee_cap = Some(crate::model::blob_gasprice(spec, w.block.excess_blob_gas.unwrap_or(0)) + U256::from(rng.below(5)));
+    }
     let mut auth_list = None;
-    if spec.is_enabled_in(SpecId::PRAGUE) && to.is_some() && rng.chance(1, 5) {
+    if spec.is_enabled_in(SpecId::PRAGUE) && to.is_some() && blobs.is_empty() && rng.chance(1, 5) {
         let mut l = vec![];
         for _ in 0..rng.range(1, 3) {
             let authority = *rng.pick(&w.eoas);
@@ -341,8 +443,8 @@ pub fn gen_tx(rng: &mut Rng, w: &World) -> TxSpec {
         nonce: if rng.chance(1, 4) { None } else { None },
         chain_id: if rng.chance(1, 4) { Some(1) } else { None },
         access_list,
-        blob_hashes: vec![],
-        max_fee_per_blob_gas: None,
+        blob_hashes: blobs,
+        max_fee_per_blob_gas: blob_fee_cap,
         auth_list,
     }
 }
